@@ -14,14 +14,14 @@ Definition valid_event (s : store) (e : event) : Prop :=
   match e with
   | ECorruptData i v => forall f, nth_error (files s) i = Some f -> v <> recorded f
   | ECorruptSidecar i v => forall f, nth_error (files s) i = Some f -> v <> actual f
-  | _ => True
+  | _ => True     (* a record that becomes unusable needs no premise: it is refused, not trusted *)
   end.
 
 Fixpoint valid_run (s : store) (es : list event) : Prop :=
   match es with [] => True | e :: r => valid_event s e /\ valid_run (fst (step s e)) r end.
 
 (* per file: checksummed, and if file and sidecar agree then the file is as written *)
-Definition sound (f : file) : Prop := disabled f = false /\ (actual f = recorded f -> clean f).
+Definition sound (f : file) : Prop := disabled f = false /\ (unknown f = false -> actual f = recorded f -> clean f).
 Definition inv (s : store) : Prop := Forall sound (files s).
 
 Lemma Forall_set_nth (P : file -> Prop) l : forall i f, Forall P l -> P f -> Forall P (set_nth l i f).
@@ -46,42 +46,68 @@ Qed.
 Lemma ensure_files s : files (fst (ensure_verified s)) = files s.
 Proof. unfold ensure_verified. destruct (verified s); reflexivity. Qed.
 
-Lemma sound_checked f : sound f -> fcheck f = true -> clean f.
+Lemma ensure_props s :
+  files (fst (ensure_verified s)) = files s /\ plan (fst (ensure_verified s)) = plan s /\
+  (verified (fst (ensure_verified s)) = verified s \/ verified s = None).
 Proof.
-  intros [Hd Hc] H. unfold fcheck in H. rewrite Hd in H. cbn [orb] in H. apply N.eqb_eq in H. auto.
+  unfold ensure_verified. destruct (verified s) eqn:E; cbn [fst files plan verified]; repeat split; auto.
 Qed.
 
-Lemma sound_accepted f : sound f -> (header_crc f =? actual f) = true -> clean f.
+Lemma sound_checked f : sound f -> fcheck f = true -> clean f.
 Proof.
-  intros [Hd Hc] H. unfold header_crc in H. rewrite Hd in H. apply N.eqb_eq in H. auto.
+  intros [Hd Hc] H. unfold fcheck in H. apply andb_true_iff in H. destruct H as [Hu H].
+  apply negb_true_iff in Hu. rewrite Hd in H. cbn [orb] in H. apply N.eqb_eq in H. auto.
+Qed.
+
+Lemma sound_accepted f : sound f -> unknown f = false -> (header_crc f =? actual f) = true -> clean f.
+Proof.
+  intros [Hd Hc] Hu H. unfold header_crc in H. rewrite Hd in H. apply N.eqb_eq in H. auto.
+Qed.
+
+Lemma scan_ok_known l f : scan_ok l = true -> In f l -> unknown f = false.
+Proof.
+  unfold scan_ok. intros H Hin. rewrite forallb_forall in H. specialize (H f Hin). apply negb_true_iff in H. exact H.
+Qed.
+
+Lemma pick_incl l ids f : In f (pick l ids) -> In f l.
+Proof.
+  unfold pick. induction ids as [|i r IH]; cbn [flat_map]; [intros []|].
+  destruct (nth_error l i) eqn:E; cbn [app]; [|exact IH].
+  intros [<-|H]; [eapply nth_error_In; exact E | apply IH; exact H].
 Qed.
 
 Lemma step_sound s e : inv s -> valid_event s e ->
   inv (fst (step s e)) /\ forall fs, snd (step s e) = Used fs -> Forall clean fs.
 Proof.
-  intros Hi Hv. destruct e as [i v|i v|ids|ids gone v|]; cbn [step].
+  intros Hi Hv. destruct e as [i v|i v|i|ids|ids gone v|]; cbn [step].
   - destruct (nth_error (files s) i) as [f|] eqn:E; cbn [fst snd]; [|split; [assumption | discriminate]].
     split; [|discriminate]. unfold inv. cbn [files]. apply Forall_set_nth; [assumption|].
     assert (Hf : sound f) by (unfold inv in Hi; rewrite Forall_forall in Hi; apply Hi; eapply nth_error_In; exact E).
-    destruct Hf as [Hd _]. split; cbn [disabled actual recorded]; [exact Hd|]. intros X. exfalso. apply (Hv f E). exact X.
+    destruct Hf as [Hd _]. split; cbn [disabled actual recorded unknown]; [exact Hd|]. intros _ X. exfalso. apply (Hv f E). exact X.
   - destruct (nth_error (files s) i) as [f|] eqn:E; cbn [fst snd]; [|split; [assumption | discriminate]].
     split; [|discriminate]. unfold inv. cbn [files]. apply Forall_set_nth; [assumption|].
     assert (Hf : sound f) by (unfold inv in Hi; rewrite Forall_forall in Hi; apply Hi; eapply nth_error_In; exact E).
-    destruct Hf as [Hd _]. split; cbn [disabled actual recorded]; [exact Hd|]. intros X. exfalso. apply (Hv f E). symmetry. exact X.
+    destruct Hf as [Hd _]. split; cbn [disabled actual recorded unknown]; [exact Hd|]. intros _ X. exfalso. apply (Hv f E). symmetry. exact X.
+  - destruct (nth_error (files s) i) as [f|] eqn:E; cbn [fst snd]; [|split; [assumption | discriminate]].
+    split; [|discriminate]. unfold inv. cbn [files]. apply Forall_set_nth; [assumption|].
+    assert (Hf : sound f) by (unfold inv in Hi; rewrite Forall_forall in Hi; apply Hi; eapply nth_error_In; exact E).
+    destruct Hf as [Hd _]. split; cbn [disabled actual recorded unknown]; [exact Hd | discriminate].
   - pose proof (ensure_files s) as Ef. destruct (ensure_verified s) as [s1 ok]. cbn [fst] in Ef.
     assert (Hi1 : inv s1) by (unfold inv; rewrite Ef; exact Hi).
     destruct ok; cbn [negb]; [|split; [exact Hi1 | discriminate]].
+    destruct (scan_ok (files s1)) eqn:Es; cbn [negb]; [|split; [exact Hi1 | discriminate]].
     destruct (receiver_accepts (pick (files s1) ids)) eqn:Ea; cbn [fst snd]; (split; [exact Hi1|]); [|discriminate].
     intros fs X. inversion X; subst fs. clear X.
     pose proof (Forall_pick sound (files s1) ids Hi1) as Hp.
     unfold receiver_accepts in Ea. rewrite forallb_forall in Ea. rewrite Forall_forall in *.
-    intros f Hf. apply sound_accepted; [apply Hp; exact Hf | apply Ea; exact Hf].
+    intros f Hf. apply sound_accepted; [apply Hp; exact Hf | eapply scan_ok_known; [exact Es | eapply pick_incl; exact Hf] | apply Ea; exact Hf].
   - pose proof (ensure_files s) as Ef. destruct (ensure_verified s) as [s1 ok]. cbn [fst] in Ef.
     assert (Hi1 : inv s1) by (unfold inv; rewrite Ef; exact Hi).
     destruct ok; cbn [negb]; [|split; [exact Hi1 | discriminate]].
+    destruct (scan_ok (files s1)) eqn:Es; cbn [negb]; [|split; [exact Hi1 | discriminate]].
     destruct (forallb fcheck (pick (files s1) ids)) eqn:Ea; cbn [negb fst snd]; [|split; [exact Hi1 | discriminate]].
     split.
-    + unfold inv. cbn [files]. constructor; [split; [reflexivity | intros _; reflexivity]|].
+    + unfold inv. cbn [files]. constructor; [split; [reflexivity | intros _ _; reflexivity]|].
       apply Forall_remove_ids. exact Hi1.
     + intros fs X. inversion X; subst fs. clear X.
       pose proof (Forall_pick sound (files s1) ids Hi1) as Hp.
@@ -93,7 +119,7 @@ Qed.
 Lemma inv_fresh crcs : inv (fresh crcs).
 Proof.
   unfold inv, fresh. cbn [files]. induction crcs as [|c r IH]; cbn [map]; constructor; [|exact IH].
-  split; [reflexivity | intros _; reflexivity].
+  split; [reflexivity | intros _ _; reflexivity].
 Qed.
 
 Lemma run_sound es : forall s, inv s -> valid_run s es ->
@@ -137,6 +163,23 @@ Proof.
   destruct He as [[ids ->]|[ids [gone [v ->]]]]; cbn [step]; unfold ensure_verified; rewrite Hn; cbn [negb fst snd]; auto.
 Qed.
 
+(* fail closed: while any checksum record of the store cannot be used (not JSON, no or unknown
+   checksum type, malformed value), nothing is opened, transferred, restored or consolidated --
+   whether or not the store was verified before, and whether or not the consumer resolves that file *)
+Theorem unknown_record_is_rejected s :
+  (exists f, In f (files s) /\ unknown f = true) ->
+  forall e, (exists ids, e = EOpen ids) \/ (exists ids gone v, e = EReap ids gone v) ->
+  snd (step s e) = Refused.
+Proof.
+  intros (f & Hf & Hu) e He.
+  assert (Hs : forall s1, files s1 = files s -> scan_ok (files s1) = false).
+  { intros s1 E. rewrite E. unfold scan_ok. destruct (forallb (fun f0 => negb (unknown f0)) (files s)) eqn:X; [|reflexivity].
+    rewrite forallb_forall in X. specialize (X f Hf). rewrite Hu in X. discriminate. }
+  pose proof (ensure_props s) as (P1 & _). 
+  destruct He as [[ids ->]|[ids [gone [v ->]]]]; cbn [step]; destruct (ensure_verified s) as [s1 ok]; cbn [fst] in P1;
+    destruct ok; cbn [negb]; try reflexivity; rewrite (Hs s1 P1); reflexivity.
+Qed.
+
 (* ---------------------------------------------------------------- concrete instances *)
 (* file 1 is corrupted after the first (successful) use; the reap refuses, so does the next open *)
 Example ex_late :
@@ -161,38 +204,37 @@ Theorem failed_reap_leaves_store_unchanged s ids gone v :
   plan (fst (step s (EReap ids gone v))) = plan s /\
   (verified (fst (step s (EReap ids gone v))) = verified s \/ verified s = None).
 Proof.
-  cbn [step]. unfold ensure_verified. destruct (verified s) as [b|] eqn:Ev.
-  - destruct b; cbn [negb]; [|intros _; cbn [fst]; auto].
-    destruct (forallb fcheck (pick (files s) ids)); cbn [negb fst snd]; [discriminate | auto].
-  - destruct (forallb fcheck (files s)); cbn [negb]; [|intros _; cbn [fst files plan]; auto].
-    cbn [files]. destruct (forallb fcheck (pick (files s) ids)); cbn [negb fst snd files plan]; [discriminate | auto].
+  cbn [step]. pose proof (ensure_props s) as P. destruct (ensure_verified s) as [s1 ok]. cbn [fst] in P.
+  destruct ok; cbn [negb]; [|intros _; exact P].
+  destruct (scan_ok (files s1)); cbn [negb]; [|intros _; exact P].
+  destruct (forallb fcheck (pick (files s1) ids)); cbn [negb fst snd]; [discriminate | intros _; exact P].
 Qed.
 
 Theorem failed_open_leaves_store_unchanged s ids :
   snd (step s (EOpen ids)) = Refused ->
   files (fst (step s (EOpen ids))) = files s /\ plan (fst (step s (EOpen ids))) = plan s.
 Proof.
-  cbn [step]. unfold ensure_verified. destruct (verified s) as [b|].
-  - destruct b; cbn [negb]; [|intros _; cbn [fst]; auto].
-    destruct (receiver_accepts (pick (files s) ids)); cbn [fst snd]; auto.
-  - destruct (forallb fcheck (files s)); cbn [negb]; [|intros _; cbn [fst files plan]; auto].
-    cbn [files]. destruct (receiver_accepts (pick (files s) ids)); cbn [fst snd files plan]; auto.
+  cbn [step]. pose proof (ensure_props s) as (P1 & P2 & _). destruct (ensure_verified s) as [s1 ok]. cbn [fst] in P1, P2.
+  destruct ok; cbn [negb]; [|intros _; auto].
+  destruct (scan_ok (files s1)); cbn [negb]; [|intros _; auto].
+  destruct (receiver_accepts (pick (files s1) ids)); cbn [fst snd]; auto.
 Qed.
 
 (* no history leaves a reap plan (or any temporary entry) in the store directory *)
 Lemma step_plan s e : plan s = false -> plan (fst (step s e)) = false.
 Proof.
-  intros H. destruct e as [i v|i v|ids|ids gone v|]; cbn [step].
+  intros H. destruct e as [i v|i v|i|ids|ids gone v|]; cbn [step].
   - destruct (nth_error (files s) i); exact H.
   - destruct (nth_error (files s) i); exact H.
-  - unfold ensure_verified. destruct (verified s) as [[|]|]; cbn [negb]; try exact H;
-      [destruct (receiver_accepts (pick (files s) ids)); exact H|].
-    destruct (forallb fcheck (files s)); cbn [negb fst]; [|exact H].
-    cbn [files]. destruct (receiver_accepts (pick (files s) ids)); exact H.
-  - unfold ensure_verified. destruct (verified s) as [[|]|]; cbn [negb]; try exact H;
-      [destruct (forallb fcheck (pick (files s) ids)); cbn [negb fst plan]; [reflexivity | exact H]|].
-    destruct (forallb fcheck (files s)); cbn [negb fst]; [|exact H].
-    cbn [files]. destruct (forallb fcheck (pick (files s) ids)); cbn [negb fst plan]; [reflexivity | exact H].
+  - destruct (nth_error (files s) i); exact H.
+  - pose proof (ensure_props s) as (_ & P2 & _). destruct (ensure_verified s) as [s1 ok]. cbn [fst] in P2.
+    rewrite H in P2. destruct ok; cbn [negb]; [|exact P2].
+    destruct (scan_ok (files s1)); cbn [negb]; [|exact P2].
+    destruct (receiver_accepts (pick (files s1) ids)); exact P2.
+  - pose proof (ensure_props s) as (_ & P2 & _). destruct (ensure_verified s) as [s1 ok]. cbn [fst] in P2.
+    rewrite H in P2. destruct ok; cbn [negb]; [|exact P2].
+    destruct (scan_ok (files s1)); cbn [negb]; [|exact P2].
+    destruct (forallb fcheck (pick (files s1) ids)); cbn [negb fst plan]; [reflexivity | exact P2].
   - exact H.
 Qed.
 
@@ -204,3 +246,11 @@ Proof.
     specialize (IH s1 H1). destruct (run s1 r) as [s2 os]. exact IH. }
   apply G. reflexivity.
 Qed.
+
+(* a record that loses its type after the store was verified: every consumer is refused, also
+   those that do not touch the file, until the record is usable again *)
+Example ex_unknown_record :
+  let es := [EOpen [0; 1]%nat; ECorruptRecord 1%nat; ECorruptData 1%nat 77; EOpen [0; 1]%nat; EOpen [0%nat]; EReap [0; 1]%nat [] 9;
+             ERestart; EOpen [0%nat]] in
+  run_codes (fresh [10; 11]) es = [1; 0; 0; 2; 2; 2; 0; 2].
+Proof. vm_compute. reflexivity. Qed.
